@@ -260,6 +260,7 @@ type modset struct {
 	ghosts   map[string]bool
 	allGhost bool
 	allMem   bool
+	allMaps  bool
 }
 
 func (m *Machine) rootOf(v ssa.Value, path []int) (ssa.Value, []int) {
@@ -317,7 +318,7 @@ func (m *Machine) loopModset(fn *ssa.Function, lp *Loop) *modset {
 				if callee := com.StaticCallee(); callee != nil {
 					fc = m.contracts.Funcs[funcKey(callee)]
 				}
-				if fc != nil && fc.HasAssigns {
+				if fc != nil && (fc.HasAssigns || fc.Trusted == "") {
 					callee := com.StaticCallee()
 					for _, a := range fc.Assigns {
 						if len(a) > 0 && a[0] == '@' {
@@ -368,6 +369,23 @@ func (m *Machine) loopModset(fn *ssa.Function, lp *Loop) *modset {
 				}
 				ms.allGhost = true
 				ms.allMemForArgs(m, com, add)
+				// map contents: a function of this package without a frame can reach any map; an external one
+				// (or delete) the maps it is handed
+				if callee := com.StaticCallee(); callee != nil && callee.Pkg == m.pkg {
+					if m.mayWriteMaps(callee) {
+						ms.allMaps = true
+					}
+				} else if com.StaticCallee() == nil && !com.IsInvoke() {
+					if _, isBuiltin := com.Value.(*ssa.Builtin); !isBuiltin || name == "builtin:delete" {
+						ms.allMaps = true // closure / function value, or delete
+					}
+				} else {
+					for _, a := range com.Args {
+						if _, isMap := a.Type().Underlying().(*types.Map); isMap {
+							ms.allMaps = true
+						}
+					}
+				}
 			}
 		}
 	}
@@ -396,6 +414,51 @@ func (m *Machine) havocLoop(c *Config, lp *Loop, phis []*ssa.Phi, entryVals []Va
 		fr.regs[p] = m.havocValue(st, p.Comment, p.Type(), entryVals[i], m.phiBackValues(c, p, lp), p)
 	}
 	ms := m.loopModset(fr.fn, lp)
+	// maps written directly in the loop body: the contents of every map the written value can be are arbitrary at
+	// the head; a map value that is not yet known at the head (loaded inside the body) makes all map contents arbitrary
+	for b := range lp.blocks {
+		for _, ins := range b.Instrs {
+			mu, ok := ins.(*ssa.MapUpdate)
+			if !ok {
+				continue
+			}
+			var cands []ssa.Value
+			seen := map[ssa.Value]bool{}
+			var walk func(v ssa.Value)
+			walk = func(v ssa.Value) {
+				if seen[v] {
+					return
+				}
+				seen[v] = true
+				switch x := v.(type) {
+				case *ssa.Phi:
+					for _, e := range x.Edges {
+						walk(e)
+					}
+				case *ssa.ChangeType:
+					walk(x.X)
+				default:
+					cands = append(cands, v)
+				}
+			}
+			walk(mu.Map)
+			for _, cv := range cands {
+				known := false
+				if val, ok := fr.regs[cv]; ok && !lp.blocks[instrBlock(cv)] {
+					if t, ok := val.(Term); ok && t.Sort == "MapRef" {
+						m.havocMapContent(st, t)
+						known = true
+					}
+				}
+				if !known {
+					m.havocAllMaps(st)
+				}
+			}
+		}
+	}
+	if ms.allMaps {
+		m.havocAllMaps(st)
+	}
 	for root, paths := range ms.roots {
 		val, ok := fr.regs[root]
 		if !ok {
@@ -437,7 +500,7 @@ func (m *Machine) havocLoop(c *Config, lp *Loop, phis []*ssa.Phi, entryVals []Va
 		m.havocCellPath(c, ch)
 	}
 	for name, v := range st.ghost {
-		if ghostImmutable[name] || strings.HasPrefix(name, "@map:") || strings.HasPrefix(name, "@mapfresh:") || strings.HasPrefix(name, "@ch:") {
+		if ghostImmutable[name] || strings.HasPrefix(name, "@map:") || strings.HasPrefix(name, "@mapfresh:") || name == "@maphavocall" || strings.HasPrefix(name, "@ch:") {
 			continue
 		}
 		if ms.allGhost || ms.ghosts[name] {
@@ -601,6 +664,29 @@ func (m *Machine) havocCellPath(c *Config, ch cellHavoc) {
 	st.markHavocked(p.Obj, pk)
 }
 
+// instrBlock is the block that defines v (nil for parameters, constants, globals).
+func instrBlock(v ssa.Value) *ssa.BasicBlock {
+	if ins, ok := v.(ssa.Instruction); ok {
+		return ins.Block()
+	}
+	return nil
+}
+
+// havocAllMaps makes the contents of every map arbitrary: the ones already known and, through the marker, the ones
+// first looked at later.
+func (m *Machine) havocAllMaps(st *State) {
+	var refs []string
+	for k := range st.ghost {
+		if strings.HasPrefix(k, "@map:") {
+			refs = append(refs, strings.TrimPrefix(k, "@map:"))
+		}
+	}
+	for _, r := range refs {
+		m.havocMapContent(st, Term{S: r, Sort: "MapRef"})
+	}
+	st.ghost["@maphavocall"] = TTrue
+}
+
 func (m *Machine) havocMapContent(st *State, ref Term) {
 	if mc, ok := st.ghost["@map:"+ref.S].(*mapContent); ok {
 		n := &mapContent{ksort: mc.ksort, vsort: mc.vsort,
@@ -610,4 +696,69 @@ func (m *Machine) havocMapContent(st *State, ref Term) {
 		return
 	}
 	st.ghost["@mapfresh:"+ref.S] = TTrue
+}
+
+// mayWriteMaps: can a call of fn (a function of this package without a frame, i.e. inlined) change the contents of
+// a Go map?  True when fn or anything it can reach in this package stores into a map, deletes from one, calls a
+// function value, hands a map to an external function, or calls a contracted function whose frame names a map.
+func (m *Machine) mayWriteMaps(fn *ssa.Function) bool {
+	seen := map[*ssa.Function]bool{}
+	var visit func(f *ssa.Function) bool
+	visit = func(f *ssa.Function) bool {
+		if f == nil || seen[f] {
+			return false
+		}
+		seen[f] = true
+		if f.Blocks == nil {
+			return false
+		}
+		for _, b := range f.Blocks {
+			for _, ins := range b.Instrs {
+				switch x := ins.(type) {
+				case *ssa.MapUpdate:
+					return true
+				case *ssa.MakeClosure:
+					if cf, ok := x.Fn.(*ssa.Function); ok && visit(cf) {
+						return true
+					}
+				case ssa.CallInstruction:
+					com := x.Common()
+					if bi, ok := com.Value.(*ssa.Builtin); ok {
+						if bi.Name() == "delete" {
+							return true
+						}
+						continue
+					}
+					callee := com.StaticCallee()
+					if callee == nil {
+						if !com.IsInvoke() {
+							return true // function value
+						}
+						continue // interface method: external models, or the codec interfaces (no maps)
+					}
+					if callee.Pkg == m.pkg {
+						if fc := m.contracts.Funcs[funcKey(callee)]; fc != nil && (fc.HasAssigns || fc.Trusted == "") {
+							for _, a := range fc.Assigns {
+								if strings.HasPrefix(a, "mapof(") {
+									return true
+								}
+							}
+							continue
+						}
+						if visit(callee) {
+							return true
+						}
+						continue
+					}
+					for _, a := range com.Args {
+						if _, isMap := a.Type().Underlying().(*types.Map); isMap {
+							return true
+						}
+					}
+				}
+			}
+		}
+		return false
+	}
+	return visit(fn)
 }
